@@ -18,7 +18,12 @@ EXTRA = {
  "C02c-scope-store-recycled": ["C06", "C07"], "C08c-regcache-write-under-rlock": ["C11"], "C15c-set-walks-outermost-first": ["C06"], "C03c-deadcode-past-jump": ["C18"],
  "C18c-deadcode-past-jump": ["C03"], "C05c-empty-then-no-jump": ["C02"], "C06c-scope-store-recycled": ["C07"], "C07c-scope-store-recycled": ["C06"],
  "C12c-slash-after-rsquare": ["C14"], "C14c-constant-pool-float-compare": ["C01"], "C16c-float-hashkey-32bit": ["C01"], "C17c-float-inspect-exponent": ["C01"],
- "C04c-fields-kept-by-type": ["C07"], "C08c-calls-leak-on-error": ["C07"], "C19c-integer-key-order-cycle": ["C16"], "C06b-stale-lastop": ["C18"], "C07b-fields-survive-nil-object": ["C04"], "C04b-shared-map-converted-once": ["C07"],
+ "C04c-fields-kept-by-type": ["C07"],
+ # round 4
+ "C08d-regcache-fill-under-rlock": ["C11"], "C14d-lexer-shared-scratch": ["C11"], "C07d-calls-leak-on-depth-error": ["C08"], "C08d-calls-leak-on-panic": ["C07"],
+ "C06d-scope-store-recycled": ["C07"], "C07d-scope-store-recycled": ["C06"], "C12d-fold-across-ternary-join": ["C03"], "C03d-jump-fold-reads-previous-byte": ["C02"],
+ "C02d-dead-else-peeks-three-bytes": ["C03"], "C13d-prepare-keeps-truncated-tree": ["C19"], "C04d-shared-map-visited-set": ["C19"], "C19d-shared-map-visited-set": ["C04"],
+ "C06d-user-function-before-builtin": ["C20"], "C18d-deadcode-past-jump": ["C03"], "C08c-calls-leak-on-error": ["C07"], "C19c-integer-key-order-cycle": ["C16"], "C06b-stale-lastop": ["C18"], "C07b-fields-survive-nil-object": ["C04"], "C04b-shared-map-converted-once": ["C07"],
 }
 pref = sys.argv[1] if len(sys.argv) > 1 else ""
 rows = []
